@@ -278,7 +278,7 @@ func TestCheck(t *testing.T) {
 		}
 		var hist *vchain.History
 		stop := false
-		hist = vchain.BuildHistory(t, vchain.HistoryCfg{Idx: 800 + hi, Blocks: nb, Weights: &w, Proto: proto, PName: pname,
+		hist = vchain.BuildHistory(t, vchain.HistoryCfg{Idx: 800 + hi, Blocks: nb, Weights: &w, Proto: proto, PName: pname, Echidna: hi%2 == 1,
 			OnBlock: func(p *vchain.Producer, b *block.Block) {
 				if stop || !run.Want(id(b.Index)) {
 					return
